@@ -193,7 +193,7 @@ Proof.
   pose proof (detach_conform doc (c0 :: p0) toks Hd Np Pp) as D.
   destruct (Rfc6902.remove doc toks) as [d'|] eqn:R.
   - destruct D as (it & Ed & _). rewrite Ed. cbn [bind]. do 2 eexists. split; [reflexivity|]. split; [reflexivity|].
-    apply doc_eq_refl. eapply remove_dwf; eassumption.
+    apply doc_eq_refl. exact (remove_dwf _ _ _ Hd R).
   - rewrite D. cbn [bind]. do 2 eexists. split; [reflexivity|]. discriminate.
 Qed.
 
@@ -215,7 +215,7 @@ Proof.
     pose proof (detach_conform doc (c0 :: p0) (t0 :: ts) Hd Np Pp) as D.
     destruct (Rfc6902.remove doc (t0 :: ts)) as [d1|] eqn:R.
     + destruct D as (it & Ed & _). rewrite Ed. cbn [bind].
-      apply (add_tail 8 d1 p v0 (c0 :: p0) (t0 :: ts)); try assumption; [eapply remove_dwf; eassumption | discriminate].
+      apply (add_tail 8 d1 p v0 (c0 :: p0) (t0 :: ts)); try assumption; [exact (remove_dwf _ _ _ Hd R) | discriminate].
     + rewrite D. cbn [bind]. do 2 eexists. split; [reflexivity|]. discriminate.
 Qed.
 
